@@ -3,8 +3,8 @@ chk('C04', 'model_checking',
     'C walker (literal period, ones, visited bitmap - order 31 bitmap thorough only; 2.16e9 states) and the order of x modulo the '
     'documented polynomial is computed = 2^n-1. Real PRBS: one call over the whole period for n in {7,9,11,15,20} (quick) + 23 and, in '
     '256 segments of 2^23 shifts chained through jump-ahead checkpoints, all 2^31-1 states of PRBS31 (thorough, time-budgeted: a run that '
-    'does not fit reports the covered fraction and exhaustive=false; the last recorded run, on a loaded machine, covered 96 of 256 '
-    'segments); quick for orders 23/31: 64 x 2^16 consecutive states from checkpoints spread over the cycle (50 % / 0.2 %). Call-level '
+    'does not fit reports the covered fraction and exhaustive=false; the last recorded thorough run covered all 256 segments in '
+    '184 s); quick for orders 23/31: 64 x 2^16 consecutive states from checkpoints spread over the cycle (50 % / 0.2 %). Call-level '
     'relation state --len--> (bits,state) from EVERY non-zero start state for n<=15 (quick) / n<=20 (thorough), 64 / 4096 states for the '
     'larger orders, lengths {1,2,3,n-1,n,n+1,2n+3} and, for n<=9 from every state (n=11,15: 64 / 16 states), 9 lengths around 1, 2, 3 '
     'periods. Histories: all sequences of 1..3 resumed calls over the 7 short lengths, every 2-split of 2n+3 and 3-split of n+2, all 81 '
